@@ -135,7 +135,9 @@ def run_layout(nsteps, frames, sizes, rev, scalar, units="seconds", late=0, flat
     # single-precision files: the difference of two frames carries a relative error of 2**-24; it must not grow with the number of steps
     tol = 1e-9 if storage == "f8" else 2.0 ** -23
     try:
-        for n in range(nsteps):
+        # a warm-started run (and any driver that steps up to the stop time) also executes the step AT the stop time: it is
+        # checked whenever the frames reach it, with the fractional requests the frames still cover
+        for n in range(nsteps + (1 if frames[-1] >= nsteps else 0)):
             tk.update()
             if late and n == late:  # the state was empty so far: the first particle is released only now
                 st.append(X=PX, Y=PY, Z=PZ, **(dict(temp=0.0) if scalar else {}))
@@ -145,6 +147,8 @@ def run_layout(nsteps, frames, sizes, rev, scalar, units="seconds", late=0, flat
             # the order of the requests matters to anything cached between them: the first non-zero fraction of a step
             # repeats the last one of the previous step (the access pattern of RK2 / of a probe)
             for frac in ([0.5, 0.0, 1.0, 0.5] if not scalar else [1.0, 0.0, 0.5, 1.0]):
+                if n + frac > frames[-1]:
+                    continue
                 u, v = force.velocity(st.X, st.Y, st.Z, fractional_step=frac)
                 got_u, got_v = float(u[0]), float(v[0])
                 exp = ref_velocity(frames, n + frac, tg)
